@@ -285,8 +285,12 @@ func positions() []position {
 			func(env *Env, e *E) (string, status) {
 				return printedOrErr(env, &E{K: "map", Keys: []string{"k"}, A: []*E{e}}, "A", "B")
 			}},
-		{"index", func(src string) (string, string, []string, bool) { return "A{$l[" + src + "]}B", "", []string{"l"}, true },
-			func(env *Env, e *E) (string, status) { return printedOrErr(env, vr("l", Acc{Kind: "br", E: e}), "A", "B") }},
+		{"index", func(src string) (string, string, []string, bool) {
+			return "A{$l[" + src + "]}B", "", []string{"l"}, true
+		},
+			func(env *Env, e *E) (string, status) {
+				return printedOrErr(env, vr("l", Acc{Kind: "br", E: e}), "A", "B")
+			}},
 		{"funcarg", func(src string) (string, string, []string, bool) { return "A{isNonnull(" + src + ")}B", "", nil, true },
 			func(env *Env, e *E) (string, status) { return printedOrErr(env, call("isNonnull", e), "A", "B") }},
 		{"funcarg2", func(src string) (string, string, []string, bool) { return "A{max(0, " + src + ")}B", "", nil, true },
